@@ -21,7 +21,7 @@ def main():
         del args[i:i + 2]
     wt = next((a for a in args if a.startswith("/")), "/tmp/wt_verify")
     flt = [a for a in args if not a.startswith("/") and not a.startswith("--")]
-    env = dict(os.environ, VERIF_REPO=wt, VERIF_EVIDENCE_DIR="/tmp/seeded_evidence", VERIF_REPLAY_DIR="/tmp/seeded_replays")
+    env = dict(os.environ, VERIF_REPO=wt, VERIF_EVIDENCE_DIR="/tmp/seeded_evidence", VERIF_REPLAY_DIR="/tmp/seeded_replays", VERIF_SCREEN="1")
     out = {}
     for name in sorted(os.listdir(os.path.join(VERIF, "seeded"))):
         d = os.path.join(VERIF, "seeded", name)
